@@ -8,6 +8,7 @@ import (
 	"verifharness/hx"
 
 	_ "verifharness/c17"
+	_ "verifharness/cond"
 )
 
 func main() {
